@@ -2,6 +2,7 @@ package c08
 
 import (
 	"fmt"
+	"runtime"
 	"strings"
 	"testing"
 	"time"
@@ -92,20 +93,68 @@ func FuzzLabelName(f *testing.F) {
 	for _, n := range yamlPool {
 		f.Add(n, uint8(0), false)
 	}
+	// build the stage (real uploads) outside the per-input time limit of the fuzz worker
+	for _, crc := range []bool{false, true} {
+		if _, _, err := getBase(crc, []int{2, 2, 2}); err != nil {
+			f.Fatalf("%v", err)
+		}
+	}
 	f.Fuzz(func(t *testing.T, name string, k uint8, crc bool) {
 		if len(name) > 256 {
 			t.Skip()
 		}
 		c := nameCase(name, int(k%8), crc)
 		hx.Journal(c)
-		err, hung, panicked := hx.Guard(120*time.Second, func() error {
+		// the fuzz worker itself gives up on an input after 10 s ("deadlocked!", output discarded): stay below
+		err, hung, panicked := hx.Guard(8*time.Second, func() error {
 			_, e := runCase(c)
 			return e
 		})
-		if hung || panicked || err != nil {
+		if hung {
+			// 8 s for ~30 ms of work: either a deadlock inside datamon (every goroutine of the case blocked) or a
+			// starved process (the goroutines are runnable; seen with a load average above 100).  Only the
+			// former is reported here; busy loops are left to the rapid properties and their 60 s watchdog.
+			st, blocked := stacks()
+			if !blocked {
+				t.Skipf("inconclusive: slow, not blocked\n%s", st)
+			}
+			t.Fatalf("%v: all goroutines of the case are blocked\n%s", err, st)
+		}
+		if panicked || err != nil {
 			t.Fatalf("%v (hung=%v panicked=%v)", err, hung, panicked)
 		}
 	})
+}
+
+// stacks returns the stacks of the goroutines inside datamon or this package (where a hung case sits) and
+// whether all of them are blocked (none running, runnable, sleeping or in a system call)
+func stacks() (string, bool) {
+	buf := make([]byte, 4<<20)
+	buf = buf[:runtime.Stack(buf, true)]
+	var keep []string
+	blocked := true
+	for _, g := range strings.Split(string(buf), "\n\n") {
+		if strings.Contains(g, "c08.stacks") {
+			continue
+		}
+		if strings.Contains(g, "oneconcern/datamon") || strings.Contains(g, "verifharness/c08.runCase") {
+			keep = append(keep, g)
+			head := g
+			if i := strings.Index(g, "\n"); i >= 0 {
+				head = g[:i]
+			}
+			for _, live := range []string{"[running", "[runnable", "[sleep", "[syscall", "[IO wait", "[GC "} {
+				if strings.Contains(head, live) {
+					blocked = false
+				}
+			}
+		}
+	}
+	out := strings.Join(keep, "\n\n")
+	if len(out) > 16000 {
+		out = out[:16000] + "\n..."
+	}
+	return out, blocked && len(keep) > 0
 }
 
 // ---------------------------------------------------------------------------------------------
